@@ -121,6 +121,16 @@ for _pid, _txt, _note in [
         'level_note': _note + ' Trusted: Coq kernel; container/heap, context cancellation and eval.Material as modelled (exercised by exact correspondence); harness.',
     })
 
+PROPS['C14'] = _board('C14', ['C14'],
+    'encode/decode round trips on curated, playout and synthetic positions with clocks up to 2^30, all 16 castling-right subsets x 7 e.p. squares on a skeleton; engine-reported FEN after every Move / TakeBack of random games (30% special moves) from random and initial starts.',
+    'fen.Encode / fen.Decode of the implementation compared with the model codec (Model/Fen.v) character by character; decode(encode x) = x and re-encoding canonical strings checked on the implementation; the FEN an engine reports is decoded and compared with the specification game (position, side, half-move clock since last pawn move or capture, full-move number).')
+PROPS['C19'] = _board('C19', ['C19'],
+    'curated malformed FENs (wrapping digit runs, 9/0 digits, non-ASCII digits and letters, missing/extra/swapped fields, signs and overflow in clocks, tabs) and seeded mutations of valid FENs (delete/insert/replace runes incl. Arabic-Indic and full-width, duplicate rank, 24-40 digit runs, truncate, swap fields); random 3-6 rune move and 2 rune square strings; Engine.Move with every pseudo-legal move string, random coordinate pairs and junk on random positions.',
+    'No input crashes (a panic is an observation), none yields a nil position without error, accepted FENs decode to well-formed values whose re-encoding decodes to the same value; ParseMove/ParseSquare compared with the model; Engine.Move accepts exactly the strings denoting a legal move of the specification and rejected input leaves every getter unchanged.')
+PROPS['C10'] = _board('C10', ['C10'],
+    'the real UCI driver is fed position / ucinewgame lines in GUI form, synchronised by isready: scripted extension, verbatim repetition, shortening, new game, FEN textual-prefix cases, threefold by repeated moves; random games sent as growing move lists with repeats, shortenings and ucinewgame, from startpos and random FENs.',
+    'After every line the engine FEN, history length, repetition count of the current position, result and clocks are compared with the model (Model/Engine.v cmd_position) and with the game the line describes, built from the line alone on the specification game (EngineSpec.setup).')
+
 # Every listed property is claimed; reasons would go here otherwise.
 NOT_APPLICABLE = [
     {'property_id': pid, 'reason': 'check not built yet in this session (work in progress; see DESIGN.md section 9)'}
